@@ -629,10 +629,33 @@ def first_n(it, n=20, budget=0.2):
 
 RE_WD_CALLER = re.compile(r'([+-]?)([0-9]{0,2})([A-Za-z]{2})\Z')
 
+# the value type RFC 5545 section 3.3.10 / RFC 7529 give each rule part, written down here and not read from
+# the implementation's own table, so that a lost or wrong entry there is a wrong decoded type here
+RFC_PART_TYPES = {
+    'COUNT': 'vInt', 'INTERVAL': 'vInt', 'BYSECOND': 'vInt', 'BYMINUTE': 'vInt', 'BYHOUR': 'vInt',
+    'BYWEEKNO': 'vInt', 'BYMONTHDAY': 'vInt', 'BYYEARDAY': 'vInt', 'BYSETPOS': 'vInt', 'BYMONTH': 'vMonth',
+    'UNTIL': 'vDDDTypes', 'WKST': 'vWeekday', 'BYDAY': 'vWeekday', 'BYWEEKDAY': 'vWeekday',
+    'FREQ': 'vFrequency', 'SKIP': 'vSkip',
+}
+
+
+def rfc_class(key):
+    return RFC_PART_TYPES.get(plain(key).upper(), 'vText')
+
 
 def norm_value(cn, x):
+    try:
+        return norm_value_(cn, x)
+    except Exception as e:  # noqa: BLE001  a value the part type cannot hold: never equal to a good one
+        return ('unrepresentable', cn, type(x).__name__, repr(x), type(e).__name__)
+
+
+def norm_value_(cn, x):
     """the part type's own normalisation of a value (caller's or decoded), written independently of the classes"""
     from enum import Enum
+    if cn == 'vInt':
+        if isinstance(x, str):
+            raise TypeError('text where an integer is expected')
     if cn == 'vInt':
         return ('int', int(x))
     if cn == 'vMonth':
@@ -750,7 +773,7 @@ def check_rule(ctx, parts, mode):
     if sorted(r2.keys()) != sorted(keys_u):
         ctx.violation('decode-keys', inp, f'{text!r} decoded with keys {list(r2.keys())}, caller gave {keys_u}')
     for k, v in parts:
-        cn = vRecur.types.get(k, vText).__name__
+        cn = rfc_class(k)
         want = [norm_value(cn, build_value(x)) for x in (v if isinstance(v, list) else [v])]
         got_raw = r2.get(k)
         if not isinstance(got_raw, list):
@@ -759,7 +782,8 @@ def check_rule(ctx, parts, mode):
         got = [norm_value(cn, x) for x in got_raw]
         if got != want:
             ctx.violation('decode-values', inp, f'{k}: caller {want!r}, decoded {got!r} from {text!r}')
-        exp_cls = vRecur.types.get(k, vText)
+        import icalendar.prop as _prop
+        exp_cls = getattr(_prop, cn)
         for x in got_raw:
             if cn == 'vDDDTypes':
                 ok = isinstance(x, (date, datetime))
